@@ -23,15 +23,28 @@ def tokens (fs : List Field) (vs : List Val) : Option (List (List Char)) :=
     | .error _ => none
 
 /-- the same line with blanks added around every token -/
+def padded (ts : List (List Char)) (pads : List (Nat × Nat)) : List (List Char) :=
+  (ts.zip pads).map fun (t, (a, b)) => List.replicate a ' ' ++ t ++ List.replicate b ' '
+
 def padLine (ts : List (List Char)) (d : List Char) (pads : List (Nat × Nat)) : List Char :=
-  join d ((ts.zip pads).map fun (t, (a, b)) => List.replicate a ' ' ++ t ++ List.replicate b ' ') ++ ['\n']
+  join d (padded ts pads) ++ ['\n']
 
 def canonTok (f : Field) (v : Val) (tok : List Char) : Val := Spec.C01.canon f v tok
 
-/-- every token is free of every character of the delimiter (for one-character
-delimiters: "does not contain the delimiter"), and is not altered by `strip` -/
+/-- the property's guard: no token contains the delimiter (as a substring) or a
+newline — and, to exclude the self-overlapping corner where a token's tail and
+the delimiter's head together form an earlier occurrence of the delimiter
+(`"xa" + "aa" + "y"`), splitting the joined tokens gives the tokens back.
+(`Props.C11.main` is proved under the stronger guard "no character of the
+delimiter occurs in a token"; the rest of this domain is checked per case.) -/
 def tokensOk (ts : List (List Char)) (d : List Char) : Bool :=
-  ts.all fun t => t.all (fun c => !d.contains c) && !t.contains '\n'
+  ts.all (fun t => !isInfix d t && !t.contains '\n') && !d.contains '\n' &&
+  (ts.isEmpty || split (join d ts) d == ts)
+
+/-- the padded tokens still split apart at the delimiters that were written -/
+def paddedOk (ts : List (List Char)) (d : List Char) (pads : List (Nat × Nat)) : Bool :=
+  let ps := padded ts pads
+  ps.length == ts.length && ps.all (fun t => !isInfix d t) && (ps.isEmpty || split (join d ps) d == ps)
 
 def inDomain (fs : List Field) (vs : List Val) (d : List Char) : Bool :=
   !d.isEmpty && fs.length == vs.length && !d.all isStripWs &&
@@ -50,7 +63,9 @@ def holds (fs : List Field) (vs : List Val) (d : List Char) (pads : List (Nat ×
   | some ts =>
     o.written == join d ts ++ ['\n'] &&
     o.readBack == ((fs.zip vs).zip ts).map (fun ((f, v), t) => canonTok f v t) &&
-    o.readPadded == o.readBack &&
+    -- blanks around the tokens change nothing — as long as the blanks do not themselves complete
+    -- an occurrence of a delimiter that has a blank edge (`" :"` before a token starting with `:`)
+    (if paddedOk ts d pads then o.readPadded == o.readBack else true) &&
     -- no carry-over, missing tokens → None, surplus tokens ignored
     o.seqReads == expectedSeq fs d lines
 
